@@ -52,6 +52,20 @@ def simplify_env(spec):
                 yield dict(spec, ops=ops[:i] + [{k: v for k, v in op.items() if k != key}] + ops[i + 1:])
 
 
+def interrupt_at(intr, out0, lo=1):
+    """Fine step at which to interrupt a second execution of the op whose clean execution was out0.
+    Either a seeded fraction of the run (from step lo on), or - biased towards the instants that matter -
+    a few lines after the k-th file-system event of the clean run (an open, the n-th write, a flush, a close,
+    a rename, a remove): right after a checkpoint was taken, right before the rename, between two entries."""
+    total = int(out0.get("steps") or 1)
+    if intr.get("after_event") is not None:
+        evs = [e for e in out0.get("fs_events", []) if e[4] >= lo]
+        if evs:
+            e = evs[int(intr["after_event"]) % len(evs)]
+            return max(1, min(total, e[4] + 1 + int(intr.get("delta", 0))))
+    return lo + int(float(intr.get("frac", 0.5)) * max(0, total - lo))
+
+
 def viol(inv, op_index, msg, cls, **sig):
     s = {"inv": inv, "class": cls}
     s.update(sig)
